@@ -49,6 +49,9 @@ def in_scope(prop, b):
     why = b.get("why", "")
     failed = "failed" in d
     overflow = failed and "overflow" in json.dumps(b.get("x", ""))
+    if ev == "Crash":
+        # the board cannot even be read any more: every history property is violated at once
+        return prop in ("C04", "C12")
     if prop == "C01":
         return ev == "Moves" and bool(d & {"result", "failed"})
     if prop == "C03":
@@ -255,7 +258,7 @@ def c12(ctx):
     mc_engine(ctx, 2 if quick else 3, 1, MC_SEEDS_QUICK if quick else MC_SEEDS_THOROUGH)
     bad, ev, hist, sk = run_traces(ctx, "walk", 12, 4 if quick else 15, 160 if quick else 300, with_sum=True)
     absorb_bad(ctx, bad)
-    bad2, ev2, h2, sk2 = run_traces(ctx, "clock", 8 if quick else 12, 3 if quick else 10, 250, with_sum=True)
+    bad2, ev2, h2, sk2 = run_traces(ctx, "clock", 8 if quick else 12, 3 if quick else 10, 340, with_sum=True)
     absorb_bad(ctx, bad2)
     # B1: the board after EVERY legal move of every oracle state (1-ply neighbourhood of the catalogue, both colours)
     bo = ctx.path("boards_after_moves.ndjson")
@@ -287,7 +290,12 @@ def c16(ctx):
     absorb_bad(ctx, bad)
     bad2, ev2, h2, sk2 = run_traces(ctx, "walk", 4 if quick else 12, 4 if quick else 30, 200, label="walk")
     absorb_bad(ctx, bad2)
-    ctx.evaluations += ev + ev2
+    # the Game API's own verdict along long shuffling games (positions recur, the clock passes 100)
+    import props_game
+    gb, gev, gh = props_game.run_game_traces(ctx, "longgame", 1, 0, 0, extra=["--rounds", 30 if quick else 70])
+    props_game.absorb_game(ctx, [b for b in gb if b["why"] in ("draw by move count not reported",) or
+                                 (b["why"] == "draw reported too early" and b.get("x", {}).get("occurred", 0) < 3)], {"GEnding"})
+    ctx.evaluations += ev + ev2 + gev
     ctx.nontrivial += hist
     ctx.rule = ("design: ClockInvariant on MC_Engine; B2: games steered into long reversible stretches with occasional pawn moves (330-700 plies, clocks also started at 40-100 so that "
                 "49/50/99/100 and 254/255/256 are crossed), half-move clock and move counter compared with the model after every apply/undo, evaluate::game_ending asked at every ply: "
